@@ -208,14 +208,20 @@ theorem inv_crashAt_known (fx : Bool) {α : Type} (s : Site) (hs : s.known = tru
     Inv fx 0 (crashAt s : P α) := by
   intro st; simp [InvAt, crashAt, hs, hfx]
 
+theorem inv_guardCount (fx : Bool) (need : Nat) : Inv fx 0 (guardCount fx need) := by
+  intro st
+  by_cases h : (fx && decide (need > st.buf.length)) = true
+  · simp [InvAt, guardCount, h]
+  · simp [InvAt, guardCount, h]
+
 theorem invAt_of_inv {fx : Bool} {k : Nat} {α : Type} {p : P α} (h : Inv fx k p) (st : St) : InvAt fx k p st := h st
 
 /-- fuel adequacy + safety of the type-description parser, by induction on the fuel:
 `|unread| + 1` suffices for readTypeInfo (every call consumes at least the 2-byte id),
 `|unread| + 2` for the element loops -/
 theorem typeInfo_inv (fx : Bool) : ∀ f : Nat,
-    (∀ st : St, st.buf.length + 1 ≤ f → InvAt fx 2 (readTypeInfo f) st) ∧
-    (∀ (named : Bool) (n : Nat) (st : St), st.buf.length + 2 ≤ f → InvAt fx 0 (typeLoop f named n) st) := by
+    (∀ st : St, st.buf.length + 1 ≤ f → InvAt fx 2 (readTypeInfo fx f) st) ∧
+    (∀ (named : Bool) (n : Nat) (st : St), st.buf.length + 2 ≤ f → InvAt fx 0 (typeLoop fx f named n) st) := by
   intro f
   induction f with
   | zero => exact ⟨fun st h => by omega, fun _ _ st h => by omega⟩
@@ -230,7 +236,8 @@ theorem typeInfo_inv (fx : Bool) : ∀ f : Nat,
       refine invAt_bind (k1 := 0) (k2 := 0) (hcls st1) (fun typ st2 h2 => ?_)
       split
       · -- tuple
-        refine invAt_bind (k1 := 0) (k2 := 0) (inv0_readShort fx st2) (fun n st3 h3 => ?_)
+        refine invAt_bind (k1 := 0) (k2 := 0) (inv0_readShort fx st2) (fun n st3' h3' => ?_)
+        refine invAt_bind (k1 := 0) (k2 := 0) (inv_guardCount fx _ st3') (fun _ st3 h3 => ?_)
         refine invAt_bind (k1 := 0) (k2 := 0) (inv_alloc fx _ st3) (fun _ st4 h4 => ?_)
         refine invAt_bind (k1 := 0) (k2 := 0) (ihL false n st4 (by omega)) (fun _ st5 h5 => ?_)
         exact inv_pure fx _ st5
@@ -238,7 +245,8 @@ theorem typeInfo_inv (fx : Bool) : ∀ f : Nat,
         · -- udt
           refine invAt_bind (k1 := 0) (k2 := 0) (inv0_readString fx st2) (fun _ st3 h3 => ?_)
           refine invAt_bind (k1 := 0) (k2 := 0) (inv0_readString fx st3) (fun _ st4 h4 => ?_)
-          refine invAt_bind (k1 := 0) (k2 := 0) (inv0_readShort fx st4) (fun n st5 h5 => ?_)
+          refine invAt_bind (k1 := 0) (k2 := 0) (inv0_readShort fx st4) (fun n st5' h5' => ?_)
+          refine invAt_bind (k1 := 0) (k2 := 0) (inv_guardCount fx _ st5') (fun _ st5 h5 => ?_)
           refine invAt_bind (k1 := 0) (k2 := 0) (inv_alloc fx _ st5) (fun _ st6 h6 => ?_)
           refine invAt_bind (k1 := 0) (k2 := 0) (ihL true n st6 (by omega)) (fun _ st7 h7 => ?_)
           exact inv_pure fx _ st7
@@ -263,19 +271,19 @@ theorem typeInfo_inv (fx : Bool) : ∀ f : Nat,
         refine invAt_mono (invAt_bind (k1 := 2) (k2 := 0) (ihT st1 (by omega)) (fun _ st2 h2 => ?_)) (Nat.zero_le _)
         exact ihL named n st2 (by omega)
 
-theorem inv_readTypeInfoTop (fx : Bool) : Inv fx 2 readTypeInfoTop := by
+theorem inv_readTypeInfoTop (fx : Bool) : Inv fx 2 (readTypeInfoTop fx) := by
   intro st
   exact (typeInfo_inv fx (st.buf.length + 1)).1 st (Nat.le_refl _)
 
-theorem inv0_readTypeInfoTop (fx : Bool) : Inv fx 0 readTypeInfoTop := inv_mono (inv_readTypeInfoTop fx) (Nat.zero_le _)
+theorem inv0_readTypeInfoTop (fx : Bool) : Inv fx 0 (readTypeInfoTop fx) := inv_mono (inv_readTypeInfoTop fx) (Nat.zero_le _)
 
 macro_rules | `(tactic| inv0_leaf) => `(tactic| exact inv0_readTypeInfoTop _)
 attribute [local irreducible] readTypeInfoTop
 
-theorem inv_readCol (fx : Bool) (g : Bool) : Inv fx 0 (readCol g) := by
+theorem inv_readCol (fx : Bool) (g : Bool) : Inv fx 0 (readCol fx g) := by
   unfold readCol; inv0
 
-theorem inv_colLoop (fx : Bool) (g : Bool) (n : Nat) (acc : List TI) : Inv fx 0 (colLoop g n acc) := by
+theorem inv_colLoop (fx : Bool) (g : Bool) (n : Nat) (acc : List TI) : Inv fx 0 (colLoop fx g n acc) := by
   induction n generalizing acc with
   | zero => exact inv_pure fx _
   | succ n ih =>
@@ -285,13 +293,13 @@ theorem inv_colLoop (fx : Bool) (g : Bool) (n : Nat) (acc : List TI) : Inv fx 0 
 macro_rules | `(tactic| inv0_leaf) => `(tactic| exact inv_colLoop _ _ _ _)
 attribute [local irreducible] colLoop
 
-theorem inv_metaTail (fx : Bool) (flags colCount : Nat) : Inv fx 0 (metaTail flags colCount) := by
+theorem inv_metaTail (fx : Bool) (flags colCount : Nat) : Inv fx 0 (metaTail fx flags colCount) := by
   unfold metaTail; inv0
 
 macro_rules | `(tactic| inv0_leaf) => `(tactic| exact inv_metaTail _ _ _)
 attribute [local irreducible] metaTail
 
-theorem inv_parseResultMetadata (fx : Bool) : Inv fx 0 parseResultMetadata := by
+theorem inv_parseResultMetadata (fx : Bool) : Inv fx 0 (parseResultMetadata fx) := by
   unfold parseResultMetadata; inv0
 
 macro_rules | `(tactic| inv0_leaf) => `(tactic| exact inv_parseResultMetadata _)
